@@ -228,6 +228,10 @@ pub fn write_block<T: WozUnifier>(woz: &mut T,addr:Block,dat: &[u8]) -> STDRESUL
 		debug!("track {} out of bounds ({})",track,woz.num_tracks());
 		return Err(Box::new(super::Error::TrackCountMismatch));
 	}
+	// every sector of the block has to be there before any of them is written
+	for ts in &ts_list {
+		woz.read_sector(to_u8(ts[0])?,to_u8(ts[1])?)?;
+	}
 	let mut offset = 0;
 	for ts in ts_list {
 		let [track,sector] = [to_u8(ts[0])?,to_u8(ts[1])?];
